@@ -68,9 +68,14 @@ claimed = {
             'is linearizable; and the REFINEMENT (Olc/ArtRefine*.v, C03e_*): every successful insert / remove of the sequential model '
             'Art/ArtModel.v - the model the differential runs tie to the real index, tree shape included - is exactly one of these '
             'commit shapes on a heap that represents the tree (all nine structural cases), so the states a sequential run goes through '
-            'form a generated history. NOT a Coq theorem: that the C++ writers perform that sequential step atomically under their '
-            'write guards when other threads run (tied by the store discipline and protocol checks on traces and by the '
-            'exploration), hence that every interleaving of try_get/try_insert/try_remove of the '
+            'form a generated history; and NON-ATOMIC WRITERS (Olc/FineWrite*.v, C03f_*): in an operational model where any number of '
+            'writers lock nodes one CAS at a time, store field by field into nodes they hold or into private fresh nodes (also into '
+            'nodes they made obsolete), pass a ghost commit point and unlock with a version bump or obsolete mark - the only '
+            'assumption being two-phase locking: at its commit point a writer holds every published node the commit changes - every '
+            'validated reader run is also a valid run of the view in which each commit is atomic, hence linearizable; failed upgrades '
+            '(bare version bumps) are covered. NOT a Coq theorem: that the C++ code is an instance of this operational model, i.e. '
+            'that the stores of try_insert / try_remove produce exactly the content of the commit shape the sequential step declares '
+            '(tied by the store discipline and protocol checks on traces, the sequential correspondence, and the exploration), hence that every interleaving of try_get/try_insert/try_remove of the '
             'implementation yields a linearizable history. That is decided on the implementation: olc_db run by 2-3 QSBR '
             'threads under the deterministic scheduler, all schedules with at most one (quick) / two (thorough) preemptions per program plus '
             'random schedules, on initial trees forcing every structural change; each execution\'s history goes through the verified '
